@@ -128,9 +128,86 @@ def inline_new_helpers(raw, vocabulary, strip_lt, log=None):
                 bi += 1
         if not changed:
             break
+    # a helper whose every call was inlined is no longer part of the program the rules look at
+    if done:
+        still = set()
+        for c in bodies:
+            for blk in c["blocks"]:
+                t = blk["term"]
+                if t["k"] == "call":
+                    cp, fn = _callee_path(t, strip_lt)
+                    if cp in new:
+                        still.add(cp)
+        gone = {d[1] for d in done} - still
+        if gone:
+            raw["bodies"] = [b for b in bodies if strip_lt(b["path"]) not in gone]
     if log and done:
         log("inlined %d call(s) to functions outside the vocabulary: %s" % (len(done), sorted({d[1] for d in done})))
     return done
+
+
+def _succs(t):
+    k = t["k"]
+    if k == "goto":
+        return [t["t"]]
+    if k == "switch":
+        return [x[1] for x in t["targets"]] + [t["otherwise"]]
+    if k in ("call", "assert", "drop"):
+        return [t["t"]] if t.get("t") is not None else []
+    return []
+
+
+def _closures_in_flow_order(b):
+    blocks = b["blocks"]
+    seen, post, stack = {0}, [], [(0, iter(_succs(blocks[0]["term"])))]
+    while stack:
+        v, it = stack[-1]
+        for w in it:
+            if w not in seen and not blocks[w].get("cleanup"):
+                seen.add(w)
+                stack.append((w, iter(_succs(blocks[w]["term"]))))
+                break
+        else:
+            post.append(v)
+            stack.pop()
+    out = []
+    for bi in post[::-1]:
+        for st in blocks[bi]["stmts"]:
+            if st["k"] == "assign" and st["rv"].get("k") == "agg" and st["rv"].get("agg") == "closure":
+                d = st["rv"]["def"]
+                if d not in out:
+                    out.append(d)
+    return out
+
+
+def canonicalise_closures(raw, log=None):
+    """Closures are named after the function whose (inlined) code creates them, numbered in control-flow order.
+    On an unrefactored tree this is rustc's own numbering; after "extract function" the closures that moved with
+    the statements get back the names they would have had."""
+    ren = {}
+    for b in raw["bodies"]:
+        if "{closure" in b["path"]:
+            continue
+        for k, d in enumerate(_closures_in_flow_order(b)):
+            want = "%s::{closure#%d}" % (b["path"], k)
+            if d != want:
+                ren[d] = want
+    if not ren:
+        return {}
+    s = json.dumps(raw)
+    tmp = {}
+    for i, (o, n) in enumerate(sorted(ren.items(), key=lambda x: -len(x[0]))):
+        ph = "\u0001CLOSURE%d\u0001" % i
+        tmp[ph] = n
+        s = s.replace(json.dumps(o)[1:-1], ph)
+    for ph, n in tmp.items():
+        s = s.replace(ph, json.dumps(n)[1:-1])
+    new = json.loads(s)
+    raw.clear()
+    raw.update(new)
+    if log:
+        log("renamed %d closure(s) to their flow-order names" % len(ren))
+    return ren
 
 
 def load_vocabulary():
